@@ -68,6 +68,10 @@ def directed_cases(seed: int, tier: str) -> typing.List[dict]:
         ("config-file-support-namespace", {"cfg_doc": {"support_namespace": "acme.support"}}),
         ("very-verbose", {"verbosity": "-vv", "ns_types": True}),
     ]
+    # the listing as an API caller gets it (what --list-inputs prints is generator.get_templates()): a template PACKAGE of the
+    # user's own, with templates in sub-directories that are reached only through extends / include / import
+    for lang in ["c", "py"]:
+        out.append({"label": "directed-api-template-package-%s" % lang, "dsdl_seed": [seed, PROP, "directed", 0], "lang": lang, "mode": "api_package"})
     for lang in ["c", "cpp", "py"]:
         for name, o in combos:
             out.append({"label": "directed-%s-%s" % (name, lang), "dsdl_seed": [seed, PROP, "directed", len(out) % 3], "lang": lang, "fixed_opts": o})
@@ -188,7 +192,87 @@ def _mutations(res: dict) -> typing.List[list]:
     return out
 
 
+PKG_TEMPLATES = {
+    "Any.j2": "{% extends 'layout/module.j2' %}{% block body %}{% from 'macros/fields.j2' import show %}{{ show(T) }}{% include 'parts/footer.j2' %}{% endblock %}\n",
+    "Namespace.j2": "NS {{ T.full_name }}\n",
+    "layout/module.j2": "MODULE {{ T.full_name }}\n{% block body %}{% endblock %}\n",
+    "macros/fields.j2": "{% macro show(t) %}FIELDS {{ t.short_name }}{% endmacro %}\n",
+    "parts/footer.j2": "FOOTER\n",
+    "parts/deeper/unused.j2": "never used\n",
+}
+
+
+def _api_package_case(case: dict, ctx: dict) -> dict:
+    """generator.get_templates() (the list --list-inputs prints) against the templates a real generate_all() opens, for a
+    template package of the user's own whose templates sit in sub-directories."""
+    import pathlib
+
+    sandbox = os.path.join(ctx["scratch"], "disk")
+    os.makedirs(sandbox)
+    world = nnvg.World(sandbox)
+    ds = dsdlgen.generate_valid(tuple(case["dsdl_seed"]), os.path.join(ctx["scratch"], "val"))
+    dsdlgen.materialize_files(ds.files, ds.roots, world.in_dir)
+    pkg_root = os.path.join(sandbox, "site")
+    for rel, text in PKG_TEMPLATES.items():
+        pth = os.path.join(pkg_root, "simtplpkg", "templates", rel)
+        os.makedirs(os.path.dirname(pth), exist_ok=True)
+        with open(pth, "w", encoding="utf-8") as f:
+            f.write(text)
+    for d in ("simtplpkg", "simtplpkg/templates"):
+        open(os.path.join(pkg_root, d, "__init__.py"), "w").close()
+    root = sorted(ds.roots)[0]
+
+    def child() -> dict:
+        import sys
+
+        import pydsdl
+        from nunavut import build_namespace_tree
+        from nunavut.jinja import DSDLCodeGenerator
+        from nunavut.lang import LanguageContextBuilder
+        from simkit.seams import Seams
+
+        sys.path.insert(0, pkg_root)
+        events = []  # type: typing.List[list]
+        seams = Seams({"sandbox": sandbox, "clock": dict(nnvg.FROZEN_CLOCK), "enum_seed": 5}, sink=events.append)
+        seams.install()
+        lctx = LanguageContextBuilder(include_experimental_languages=True).set_target_language(case["lang"]).create()
+        types = pydsdl.read_namespace(os.path.join(world.in_dir, root), [os.path.join(world.in_dir, x) for x in ds.roots if x != root], allow_unregulated_fixed_port_id=True)
+        ns = build_namespace_tree(types, os.path.join(world.in_dir, root), world.out_dir, lctx)
+        gen = DSDLCodeGenerator(ns, package_name_for_templates="simtplpkg")
+        listed = sorted(os.path.realpath(str(p)) for p in gen.get_templates())
+        n0 = len(events)
+        try:
+            gen.generate_all(False, True)
+            status = "ok"
+        except Exception as ex:  # pylint: disable=broad-except
+            status = "exc:%s: %s" % (type(ex).__name__, str(ex)[:200])
+        seams.enabled = False
+        opened = sorted({os.path.realpath(sandbox + e[2][1:]) for e in events[n0:] if e[1] == "open-r" and str(e[2]).startswith("@") and str(e[2]).endswith(".j2")})
+        return {"status": status, "listed": listed, "opened": opened}
+
+    res = proc.run_in_fork(child, timeout_s=240)
+    violations = []
+    if res["status"] == "ok":
+        missing = sorted(set(res["opened"]) - set(res["listed"]))
+        if missing:
+            violations.append({"signature": "%s:list-inputs-missing:package-template-in-sub-directory" % PROP, "detail": {"entry": "api (generator.get_templates())", "missing": [os.path.relpath(m, sandbox) for m in missing[:6]], "lang": case["lang"]}})
+    counters = {"ops": {"api_package": 1}, "faults_fired": {}, "probes": {"api_package_templates_opened": len(res["opened"])}, "status": {res["status"].split(":")[0]: 1}}
+    return {
+        "violations": violations,
+        "executed": dict(case),
+        "evaluations": 2,
+        "nontrivial_keys": ["api-package-%s" % case["lang"]] if res["status"] == "ok" and len(res["opened"]) >= 3 else [],
+        "states": [],
+        "counters": counters,
+        "sim_time_s": 0.0,
+        "sample": {"mode": "api_package", "lang": case["lang"], "opened": len(res["opened"]), "listed": len(res["listed"])},
+        "digest": hashlib.sha256(repr((res["status"], [os.path.relpath(x, sandbox) for x in res["opened"]], len(res["listed"]))).encode()).hexdigest()[:16],
+    }
+
+
 def run_case(case: dict, ctx: dict) -> dict:
+    if case.get("mode") == "api_package":
+        return _api_package_case(case, ctx)
     sandbox = os.path.join(ctx["scratch"], "disk")
     os.makedirs(sandbox)
     world = nnvg.World(sandbox, out_rel=(case.get("opts") or {}).get("out_rel") or ("build/gen/out" if Rng(PROP, "outrel", str(case.get("ops_seed", case.get("label")))).chance(1, 2) else "out"))
